@@ -9,7 +9,7 @@
 From AV Require Import Base.Bytes Base.Outcome Hash.HashModel Tree.Heap Tree.Ops Tree.Script Tree.Inv Tree.InvProofs.
 From AV Require Import Tree.Index Tree.IndexProofsBase Tree.IndexProofs Tree.Refs Tree.RefsProofsOps Tree.RefsProofsSetName
   Tree.IndexProofsBridge Tree.IndexProofsMoveOp Tree.IndexProofsCopy Tree.IndexProofsTablesReal Spec.SpecReal Tree.CheckFn
-  Tree.IndexProofsClosed Tree.RefsAll Tree.IndexProofsNodeInv Tree.IndexProofsMoveCrossOp Tree.IndexProofsCopyA.
+  Tree.IndexProofsClosed Tree.RefsAll Tree.IndexProofsNodeInv Tree.IndexProofsMoveCrossOp Tree.IndexProofsCopyA Tree.IndexProofsCopyB.
 Open Scope string_scope.
 Open Scope list_scope.
 Open Scope N_scope.
@@ -45,10 +45,10 @@ Proof.
   assert (Hx : Known04 T LATEST w o = false -> Known05 w o = false -> Pending45x w o = false -> Inv04 w' /\ Inv05 T w').
   { intros A B C. eapply (C45_inv_x T tab_el tab_en check_fn LATEST root_attrs TK); eauto. }
   destruct o; try (apply Hx; [exact HK4|exact HK5|reflexivity]); cbn [run_op] in H.
-  - apply Hx; [exact HK4| |reflexivity]. apply welem_inv in H as (r0 & H).
-    eapply (known05_copy T check_fn tab_el tab_en LATEST root_attrs); eauto.
-  - apply Hx; [exact HK4| |reflexivity]. apply welem_inv in H as (r0 & H).
-    eapply (known05_copy_at T check_fn tab_el tab_en LATEST root_attrs); eauto.
+  - apply welem_inv in H as (r0 & H).
+    exact (C45_copy_b T check_fn TK tab_el tab_en LATEST root_attrs h other w r0 w' HF HI4 HI5 HK4 HK5 H).
+  - apply welem_inv in H as (r0 & H).
+    exact (C45_copy_at_b T check_fn TK tab_el tab_en LATEST root_attrs h other pos w r0 w' HF HI4 HI5 HK4 HK5 H).
   - apply welem_inv in H as (r0 & H).
     destruct (C45_move_all T tab_el tab_en check_fn LATEST TK root_attrs h mv w r0 w' (conj HF (conj HI4 HI5)) (RX_refstr T w HX) HK4 HK5 H)
       as (_ & H1 & H2). auto.
